@@ -51,7 +51,7 @@ def _stratum(op):
 
 
 def run_zone(spec, zone):
-    env = worker_env({"TZ": zone})
+    env = worker_env({"TZ": zone, "SOURCE_DATE_EPOCH": "86400000"})  # a pinned build date, as reproducible-build set-ups export it
     p = subprocess.run([PY, "-m", "props.c18_battery", jdumps(spec)], cwd=VERIF, env=env, capture_output=True, text=True, timeout=1800)
     return p.returncode, p.stdout.splitlines(), p.stderr[-800:]
 
